@@ -84,6 +84,8 @@ class QFSystem(System):
         cfgs.append({"alpha": "Asplit", "auto": True, "ops": ["resize", "merge"], "via_key": False, "depth": None,
                      "cost": 90 * 2**10})
         cfgs.append({"alpha": "Amid", "auto": True, "ops": ["resize"], "via_key": False, "depth": None, "cost": 90 * 2**11})
+        # the auto_expand and max_load_factor setters flipped in mid-history
+        cfgs.append({"alpha": "Arun", "auto": True, "ops": ["resize", "setters"], "via_key": False, "depth": None, "cost": 200 * 2**9})
         cfgs.append({"alpha": "Awrap", "auto": False, "ops": ["resize", "merge"], "via_key": False, "depth": None,
                      "cost": 90 * 2**11})
         # nearly full larger tables (load >= 0.85 at quotient 4 and 5): the filter starts with 13 stored hashes, events
@@ -144,6 +146,9 @@ class QFSystem(System):
         if "merge" in cfg["ops"]:
             for j in range(3):
                 evs.append(("merge", j))
+        if "setters" in cfg["ops"]:
+            evs.append(("set_auto", not st.impl.auto_expand))
+            evs.append(("set_mlf", 0.5 if st.impl.max_load_factor > 0.6 else 0.85))
         return evs
 
     def apply(self, cfg, st, ev, choices=None):
@@ -163,6 +168,10 @@ class QFSystem(System):
                     mset.add(h)
                 else:
                     mset.discard(h)
+        elif kind == "set_auto":
+            obs = call(setattr, f, "auto_expand", ev[1])
+        elif kind == "set_mlf":
+            obs = call(setattr, f, "max_load_factor", ev[1])
         elif kind == "resize":
             obs = call(f.resize, ev[1])
         else:
@@ -186,7 +195,7 @@ class QFSystem(System):
         kind = ev[0]
         if kind == "add":
             h = self._alpha(cfg)[ev[1]]
-            return n >= f.size and h not in pre.model["set"] and not cfg["auto"]
+            return n >= f.size and h not in pre.model["set"] and not f.auto_expand
         if kind == "resize":
             q = ev[1] if ev[1] is not None else f.quotient + 1
             return q < 3 or q > 31 or n >= (1 << q)
@@ -260,7 +269,8 @@ class QFSystem(System):
         if ev[0] == "resize" and obs[0] == "ok":
             want = ev[1] if ev[1] is not None else pre.impl.quotient + 1
             # with auto_expand on, re-inserting into a table that is at or above the maximum load expands it further
-            if f.quotient != want and not (cfg["auto"] and f.quotient > want and len(pre.model["set"]) >= 0.85 * (1 << want) - 1):
+            if f.quotient != want and not (pre.impl.auto_expand and f.quotient > want
+                                           and len(pre.model["set"]) >= pre.impl.max_load_factor * (1 << want) - 1):
                 bad("C04", "qf.resize_sets_quotient", {"want": want, "got": f.quotient})
         return out
 
